@@ -976,6 +976,8 @@ let node_case (line : string) : string =
                (match frame_to other body with Some b -> ignore (do_op (OFrame b)) | None -> ())
            | None -> ()); "-"
       | "quiet" -> ignore (next t); "-"
+      | "pflood" -> let p = pid_arg t in let n = int_of_string (next t) in let body = rd_term cmp_owned t in
+          (match frame_to p body with Some b -> for _ = 1 to n do ignore (do_op (OFrame b)) done | None -> ()); "-"
       | "replyto" -> let p = pid_arg t in let body = rd_term cmp_owned t in
           (match frame_to p body with Some b -> ignore (do_op (OFrame b)) | None -> ()); "-"
       | "overlong" -> ignore (do_op OOverlong); "-"
@@ -1037,6 +1039,46 @@ let gsrv_case (line : string) : string =
         Printf.sprintf "c%d=%s" k (join (List.filter_map (fun (p, t) -> if pid_eqb p (caller k) then Some (term_str t) else None) r.g_sent))) in
       String.concat " ;; " ([ (if r.g_alive then "alive=1" else "alive=0"); "log=" ^ join (List.map ev r.g_log) ] @ boxes)
 
+(* ---- domain gevt: the gen_event manager in the process loop (C18, last clause) ---- *)
+let gevt_case (line : string) : string =
+  match split_on " ;; " line with
+  | [] -> failwith "empty"
+  | head :: steps ->
+      let mask = (match words head with ["gevt"; m] -> m | _ -> failwith "bad gevt head") in
+      let node = List.map (fun c -> n_of_int (Char.code c)) (List.init 3 (String.get "c@h")) in
+      let caller k : pidr = { pnode = node; pnum = n_of_int (100 + k); pserial = N0; pcreation = n_of_int 1; ploc = None } in
+      let ncall = String.length mask in
+      let live = List.filter_map (fun k -> if mask.[k] = '1' then Some (caller k) else None) (List.init ncall (fun k -> k)) in
+      let st = ref demo_einit in
+      List.iter (fun s ->
+        match words s with
+        | "H" :: rest -> let t = { l = rest } in let id = rd_term cmp_owned t in let args = rd_term cmp_owned t in
+            st := demo_add !st { dh_id = id; dh_count = Z0 } args
+        | "R" :: f :: rest ->
+            let from = if f = "-" then None else Some (caller (int_of_string (String.sub f 1 (String.length f - 1)))) in
+            st := demo_estep live !st (EReg (from, rd_term cmp_owned { l = rest }))
+        | "X" :: rest -> st := demo_estep live !st (EExit (rd_term cmp_owned { l = rest }))
+        | ["O"] -> st := demo_estep live !st EOther
+        | _ -> failwith ("bad gevt step " ^ s)) steps;
+      let r = !st in
+      let entry = function
+        | HInit (k, a) -> (term_str k, "init " ^ term_str a)
+        | HEvent (k, e) -> (term_str k, "event " ^ term_str e)
+        | HCall (k, q) -> (term_str k, "call " ^ term_str q)
+        | HInfo (k, b) -> (term_str k, "info " ^ term_str b)
+        | HTerm (k, x) -> (term_str k, "term " ^ term_str x) in
+      let es = List.map entry r.e_log in
+      let keys = List.sort_uniq compare (List.map fst es) in
+      let join l = if l = [] then "-" else String.concat " , " l in
+      let logs = List.map (fun k -> Printf.sprintf "h[%s]=%s" k (join (List.filter_map (fun (k', e) -> if k' = k then Some e else None) es))) keys in
+      (* the answer to which_handlers lists the ids in the hash map's order: compared sorted *)
+      let canon t = (match t with
+        | TTuple [r; TList ids] -> TTuple [r; TList (List.sort (fun a b -> compare (term_str a) (term_str b)) ids)]
+        | _ -> t) in
+      let boxes = List.init ncall (fun k ->
+        Printf.sprintf "c%d=%s" k (join (List.filter_map (fun (p, t) -> if pid_eqb p (caller k) then Some (term_str (canon t)) else None) r.e_sent))) in
+      String.concat " ;; " (logs @ boxes)
+
 let () =
   let domain = if Array.length Sys.argv > 1 then Sys.argv.(1) else "" in
   let f = match domain with
@@ -1053,6 +1095,7 @@ let () =
     | "conn" -> conn_case
     | "node" -> node_case
     | "gsrv" -> gsrv_case
+    | "gevt" -> gevt_case
     | _ -> prerr_endline ("unknown domain " ^ domain); exit 2 in
   (try
     while true do
